@@ -224,7 +224,10 @@ RuleSeq(q, W) ==
   LET es == EnvSeq(q, W)
   IN FlattenSeqs([i \in 1..Len(es) |->
        LET tags == Fire(q.tree, es[i], q, W)
-       IN [j \in 1..Len(tags) |-> [cls |-> "P", f |-> <<es[i][1], IntV(tags[j])>> \o (IF NVars(q) > 1 THEN <<es[i][2]>> ELSE <<>>)]]])
+       IN [j \in 1..Len(tags) |->
+             \* q.concl = "second": the conclusions mention the second variable only, P(a = y, b = tag) - still one per assignment
+             IF "concl" \in DOMAIN q /\ q.concl = "second" THEN [cls |-> "P", f |-> <<es[i][2], IntV(tags[j]), NoneV>>]
+             ELSE [cls |-> "P", f |-> <<es[i][1], IntV(tags[j])>> \o (IF NVars(q) > 1 THEN <<es[i][2]>> ELSE <<>>)]]])
 
 \* rule inference: one instance per satisfying assignment
 HeadOf(q, W, env) == [cls |-> q.head.cls,
